@@ -26,6 +26,7 @@ type c06Case struct {
 	LongAt  int          `json:"longAt,omitempty"`
 	Target  string       `json:"target,omitempty"` // "", rel, slash
 	PreOps  []string     `json:"preOps,omitempty"` // From-Root: earlier operations on the same node tree
+	Inodes  int          `json:"inodes,omitempty"` // >0: the target is a file system of its own with room for Inodes-1 entries; the creation beyond that fails (ENOSPC)
 }
 
 type c06Pre struct {
@@ -88,7 +89,7 @@ func c06Check(c c06Case) string {
 	cs.Opts.HasExts = c.HasExts
 	cs.Opts.Massive = c.Massive
 	cs.Opts.TargetOpt = c.Target
-	cs.FS = &ops.FSSpec{}
+	cs.FS = &ops.FSSpec{InodeLimit: c.Inodes}
 	switch c.State {
 	case "missing":
 		cs.FS.TargetMissing = true
@@ -112,7 +113,7 @@ func c06Check(c c06Case) string {
 	} else {
 		res = ops.DefaultEnv.Run(&cs)
 	}
-	head := fmt.Sprintf("forest %s exts=%q entry=%s massive=%v state=%s pre=%v refusal=%s\n", f, c.Exts, c.Entry, c.Massive, c.State, c.PreRoot, c.Refusal)
+	head := fmt.Sprintf("forest %s exts=%q entry=%s massive=%v state=%s pre=%v refusal=%s inodes=%d\n", f, c.Exts, c.Entry, c.Massive, c.State, c.PreRoot, c.Refusal, c.Inodes)
 	if res.Infra != "" {
 		return ""
 	}
@@ -138,6 +139,22 @@ func c06Check(c c06Case) string {
 		}
 		if len(created) != 0 && !c.Massive {
 			return fmt.Sprintf("%sa root already exists but entries were created: %v", head, created)
+		}
+	case c.Inodes > 0 && c.Inodes-1 < len(paths):
+		if res.Err.Nil {
+			return fmt.Sprintf("%sthe target file system has room for %d entries, the tree needs %d: the failing creation must be returned as an error, but the call reported success; created %v", head, c.Inodes-1, len(paths), created)
+		}
+		if res.Err.IsExistPath {
+			return fmt.Sprintf("%sthe file system ran out of room; the error says a path already exists: %s", head, res.Err.Text)
+		}
+		for _, p := range created {
+			n, ok := expected[p]
+			if !ok {
+				return fmt.Sprintf("%sstray entry %q created (not a node path)", head, p)
+			}
+			if k := ops.Kind(res.After[p]); n != nil && (k == "f") != model.IsFile(n, c.Exts) {
+				return fmt.Sprintf("%s%q was created as %q", head, p, k)
+			}
 		}
 	case c.Refusal != "":
 		if res.Err.Nil {
@@ -229,11 +246,14 @@ func c06Record(col *collector, c c06Case) {
 	if len(f) >= 9 {
 		cl = append(cl, "roots>=9")
 	}
+	if c.Inodes > 0 {
+		cl = append(cl, "file-system-runs-full")
+	}
 	if c.Target != "" {
 		cl = append(cl, "target:"+c.Target)
 	}
-	nontrivial := (files >= 1 && dirLeaves >= 1 && model.Merge(f).Depth() >= 2) || len(c.PreRoot) > 0 || c.Refusal != ""
-	col.eval(nontrivial, hash64(fmt.Sprint(f, c.Exts, c.HasExts, c.Entry, c.Massive, c.State, c.PreRoot, c.Refusal, c.LongAt, c.Target, c.PreOps)), cl...)
+	nontrivial := (files >= 1 && dirLeaves >= 1 && model.Merge(f).Depth() >= 2) || len(c.PreRoot) > 0 || c.Refusal != "" || c.Inodes > 0
+	col.eval(nontrivial, hash64(fmt.Sprint(f, c.Exts, c.HasExts, c.Entry, c.Massive, c.State, c.PreRoot, c.Refusal, c.LongAt, c.Target, c.PreOps, c.Inodes)), cl...)
 	col.sample(func() any { return c })
 }
 
@@ -293,6 +313,16 @@ func c06Gen() *rapid.Generator[c06Case] {
 				}
 			}
 		case 1:
+			if mountOK() && rapid.IntRange(0, 2).Draw(t, "enospc") == 0 {
+				// the k-th creation fails for lack of room (k anywhere from the first to one past the last)
+				c.Inodes = 1 + rapid.IntRange(0, model.Merge(f).Count()).Draw(t, "room")
+				c.State = "empty"
+				c.PreRoot = nil
+				if linkTarget(c.Target) {
+					c.Target = ""
+				}
+				return c
+			}
 			c.Refusal = rapid.SampledFrom([]string{"longname", "targetIsFile", "parentIsFile"}).Draw(t, "refusal")
 			c.LongAt = rapid.IntRange(0, f.Count()-1).Draw(t, "longAt")
 			c.State = "empty"
@@ -352,6 +382,47 @@ func TestC06Exhaustive(t *testing.T) {
 						if msg := c06Check(c2); msg != "" {
 							violation(t, "C06", "c06", c2, msg)
 						}
+					}
+				}
+			}
+		}
+	})
+	col.Exhaustive = true
+}
+
+
+// The filesystem as a fault source: the target is a tmpfs with room for exactly k entries, for every k from 0 to the
+// number of node paths. The creation that does not fit fails with ENOSPC and must be reported.
+func TestC06FsFault(t *testing.T) {
+	col := coll("C06", "fs-fault")
+	if !mountOK() {
+		col.note("this process may not mount a tmpfs: part not executed")
+		return
+	}
+	maxN := pick(4, 5)
+	col.Rule = fmt.Sprintf("all forests <=%d nodes over {a,b} with distinct roots x extension lists {none, b} x {md, root(single root)} x room for k entries in the target file system, k = 0..number of node paths (the k+1-th creation fails with ENOSPC) x rotating simple/massive; oracle: error iff k < number of node paths, everything created is a node path of the right kind, nothing else is touched; non-trivial = always", maxN)
+	i, rot := 0, 0
+	model.EnumForests(maxN, []string{"a", "b"}, func(f model.Forest) {
+		if hasDupRoots(f) {
+			return
+		}
+		i++
+		if i%nshards != shard {
+			return
+		}
+		need := model.Merge(f).Count()
+		for _, exts := range [][]string{nil, {"b"}} {
+			entries := []string{"md"}
+			if len(f) == 1 {
+				entries = append(entries, "root")
+			}
+			for _, e := range entries {
+				for k := 0; k <= need; k++ {
+					rot++
+					c := c06Case{Forest: f, Exts: exts, HasExts: exts != nil, Entry: e, State: "empty", Massive: rot%5 == 0, Inodes: k + 1}
+					c06Record(col, c)
+					if msg := c06Check(c); msg != "" {
+						violation(t, "C06", "c06", c, msg)
 					}
 				}
 			}
